@@ -1,7 +1,9 @@
 /-
 C12 — per-sample and heterogeneous equation parameters are aligned.
-Property theorems about `JinnsModel/ParamBatch.lean` (single losses) and `JinnsModel/SystemLoss.lean`
-(system losses), for every caller dictionary, every set of batched keys, every batch, every
+Property theorems about `JinnsModel/ParamBatch.lean` (single losses); the same statements for the
+system losses (`JinnsModel/SystemLoss.lean`) are `Jinns.Holds.sysEvaluate_spec`,
+`Jinns.Holds.consSum_spec`, `Jinns.Holds.sysDyn_spec` and `Jinns.Holds.holdsC12Sys_model` in
+`JinnsProofs/C13.lean`.  For every caller dictionary, every set of batched keys, every batch, every
 heterogeneity declaration and all user functions (networks, residual maps, boundary / initial
 functions, heterogeneity maps are universally quantified function arguments).
 -/
@@ -635,3 +637,43 @@ theorem evalSingle_accepts (p : Params) (s : Single) (hw : wellFormed p s = true
     ∃ t, evalSingle p s = .ok t := ⟨_, evalSingle_spec p s hw⟩
 
 end Jinns.Holds
+
+/-! ### non-vacuity: concrete instances of the hypotheses above -/
+namespace Jinns.Holds.Examples12
+open Jinns.ParamBatch Jinns.Holds
+
+def p0 : Params := [("nu", [7]), ("a", [1, 2]), ("b", [4])]
+def rows0 : Rows := [("nu", [[1], [2]]), ("b", [[5], [6]])]
+
+/-- samples 0 and 1 see their own rows of the batched keys and the caller's value of `a` -/
+example : override p0 rows0 0 = [("nu", [1]), ("a", [1, 2]), ("b", [5])] := by decide
+example : override p0 rows0 1 = [("nu", [2]), ("a", [1, 2]), ("b", [6])] := by decide
+/-- the code-shaped pipeline on the same data -/
+example : select (stackTree (ofParams p0) rows0) (inAxes (stackTree (ofParams p0) rows0) (some (keys rows0))) 1
+    = [("nu", [2]), ("a", [1, 2]), ("b", [6])] := by decide
+/-- had the in-axes been inverted, the caller's own array would be sliced and the stack left whole -/
+example : pick (.plain [1, 2]) (some 0) 1 = [2] ∧ pick (.stacked [[5], [6]]) none 1 = [5, 6] := by decide
+/-- a batch naming a key the caller does not have is rejected (hypothesis of `updateEq_rejects`) -/
+example : (([("zz", [[1]])] : Rows).all fun r => hasKey r.1 (ofParams p0)) = false := by decide
+
+def nuOf (q : Params) : Rat := ((get? "nu" q).getD []).getD 0 0
+
+/-- a single loss with a parameter batch on `nu`, `b`, an observation batch observing `a`, and `nu`
+    declared heterogeneous: well formed, so `evalSingle_spec` applies -/
+def s0 : Single :=
+  { paramRows := some rows0, obsRows := some [("a", [[8], [9]])],
+    het := some [("nu", some fun pt q => [pt.getD 0 0 + nuOf q]), ("a", none)],
+    dyn := some { w := 2, f := fun pt q => [pt.getD 0 0 * nuOf q], xs := [[0], [1]] },
+    icODE := some (1, fun pt q => [nuOf q - pt.getD 1 0], [0, 3]),
+    icPDE := none, boundary := [], norm := none,
+    obs := some { w := 1, f := fun pt q => [nuOf q - pt.getD 1 0], xs := [[0, 1], [1, 2]] } }
+
+example : wellFormed p0 s0 = true := by decide
+/-- ill-formed: three collocation points for two rows -/
+example : wellFormed p0 { s0 with dyn := some { w := 2, f := fun _ _ => [], xs := [[0], [1], [2]] } } = false := by
+  decide
+/-- heterogeneity: declared key replaced, `None` and undeclared keys pass through -/
+example : evalHetero (some [("nu", some fun pt _ => [pt.getD 0 0]), ("a", none)]) p0 [9] =
+    [("nu", [9]), ("a", [1, 2]), ("b", [4])] := by decide
+
+end Jinns.Holds.Examples12
